@@ -17,7 +17,7 @@ from pyvc.contract import ContractSet, LoopSpec
 from pyvc.vals import *       # noqa
 from pyvc import vals as V
 from pyvc.interp import MISSING, TraceEv
-from pyvc.ctx import Unsupported
+from pyvc.ctx import Unsupported, SpecError
 from . import common
 from .common import emit, events_named
 
@@ -96,6 +96,8 @@ def build():
         return f
 
     def posted_kwargs(I, name):
+        if I.ctx.fork(2) == 1:
+            return I.new_dict(())          # an event posted without arguments
         return I.new_dict((("a", VInt(z3.Int(name + "[a]"))), ("b", VInt(z3.Int(name + "[b]")))))
 
     MACHINE = ObjS("MachineController", options=Rec(production=Bool),
@@ -124,7 +126,7 @@ def build():
             return NONE
         if k == 1:
             return VBool(z3.Bool(I.fresh_name("hret")))
-        return I.new_dict((("a", VInt(z3.Int(I.fresh_name("relay_a")))),))
+        return I.new_dict((("a", VInt(z3.Int(I.fresh_name("relay_a")))), ("c", VInt(z3.Int(I.fresh_name("relay_c"))))))
     C.helpers["on_opaque_call"] = on_opaque_call
 
     # ------------------------------------------------------------------ _run_handlers
@@ -191,10 +193,18 @@ def build():
                     if rf.tag == "dict":
                         # relay: later handlers see the updated arguments
                         upd = dict(I.container(rf.ref).entries)
+                        relay_known = None      # the path has decided ev_type == 'relay' when it got here
+                        if not I.ctx._feasible(z3.Not(is_relay)):
+                            relay_known = True
+                        elif not I.ctx._feasible(is_relay):
+                            relay_known = False
                         for kname, val in upd.items():
                             if kname in cur:
                                 cur[kname] = I.merge(is_relay, val, cur[kname])
-                            # (a new key introduced by a relay result is only modelled for existing keys)
+                            elif relay_known:
+                                cur[kname] = val          # a relay result may introduce new arguments
+                            elif relay_known is None:
+                                raise SpecError("relay result with a new key while the event type is undecided")
             else:
                 # not called: only allowed because dispatch stopped (boolean False earlier) or it has a
                 # condition that was evaluated to False (handled above)
@@ -272,7 +282,21 @@ def build():
     C.globals["uuid.uuid4"] = VFn("model", model=lambda I, a, k: VOpaque("UUID", z3.Const(I.fresh_name("uuid"),
                                                                                          usort("UUID"))))
     C.globals["MagicMock"] = VCls("MagicMock")
-    C.globals["hasattr"] = VFn("model", model=lambda I, a, k: VBool(False))
+    # a handler decorated with @event_handler(relative_priority) carries that attribute; whether it does is symbolic
+    C.opaque_attrs[("Fn", "relative_priority")] = "int"
+    HAS_REL = z3.Function("has_relative_priority", usort("Fn"), z3.BoolSort())
+
+    def has_attr(I, a, k):
+        o = I.force(a[0])
+        if o.tag == "opaque" and o.sort == "Fn" and I.pyconst(I.force(a[1])) == "relative_priority":
+            return VBool(HAS_REL(o.t))
+        return VBool(False)
+    C.globals["hasattr"] = VFn("model", model=has_attr)
+
+    def rel(I, handler):
+        h = I.force(handler)
+        return VInt(z3.If(HAS_REL(h.t), z3.Function("attr_relative_priority", usort("Fn"), z3.IntSort())(h.t), 0))
+    C.helpers["rel"] = rel
     C.fn("EventManager.add_handler",
          params=dict(self=ObjS("EventManager", registered_handlers=Init(registry(2))),
                      event=Str, handler=Fn, priority=Int, blocking_facility=Const(None),
@@ -280,11 +304,12 @@ def build():
          requires=[("production mode (the signature-inspection prologue is abstracted: it can only raise)",
                     "self.machine.options['production']"),
                    ("I1 holds before", "sorted_desc(event)"),
-                   ("no relative_priority attribute on the handler (modelled as absent)", "True")],
+                   ],
          result=TupleS(KEY, Str, ntname="EventHandlerKey", fields=("key", "event")),
          ensures=[("I1: the handler list stays sorted by descending priority", "sorted_desc(event)"),
-                  ("exactly the new handler is added, with priority + additional priority, after existing "
-                   "handlers of equal priority", "added_one(event, handler, priority + ap())"),
+                  ("exactly the new handler is added, with priority + additional priority (+ the relative priority of "
+                   "a decorated handler), after existing handlers of equal priority",
+                   "added_one(event, handler, priority + ap() + rel(handler))"),
                   ("the returned key names the event", "result.event == event")],
          modifies=["self.registered_handlers.**"], raises={"AssertionError": True},
          bounded="2 handlers already registered for the event")
